@@ -702,7 +702,40 @@ pub fn ready_session(rng: &mut gen::R) -> Vec<Cmd> {
         "r2q1rk1/1b2bppp/p1n1pn2/1pp5/3P4/1BN1PN2/PP2QPPP/R1BR2K1 w - - 0 13",
         "r1b2rk1/2q1bppp/p1n1pn2/1p6/3NP3/1BN1B3/PPP1Q1PP/R4RK1 w - - 2 14",
     ];
-    vec![Cmd::Uci, Cmd::Position { fen: Some(roots.choose(rng).unwrap().to_string()), moves: vec![] }, Cmd::ReadyDuringSearch { ms: 2500 }, Cmd::Quit]
+    // the judged search may be the first of the process or a later one of the same game (memory taken over from an
+    // earlier search, however that one ended) or the first of a new game
+    let mut s = vec![Cmd::Uci, Cmd::Position { fen: Some(roots.choose(rng).unwrap().to_string()), moves: vec![] }];
+    match rng.gen_range(0..7) {
+        0 | 1 => {}
+        2 => {
+            s.push(Cmd::Go { spec: format!("depth {}", rng.gen_range(1..=3)), wait: true });
+            s.push(Cmd::Stop);
+        }
+        3 => s.push(Cmd::Go { spec: format!("depth {}", rng.gen_range(1..=3)), wait: true }),
+        4 => {
+            s.push(Cmd::Go { spec: "movetime 600".into(), wait: false });
+            s.push(Cmd::Sleep(rng.gen_range(20..300)));
+            s.push(Cmd::Stop);
+        }
+        5 => {
+            s.push(Cmd::Go { spec: format!("depth {}", rng.gen_range(1..=3)), wait: true });
+            s.push(Cmd::Position { fen: Some(roots.choose(rng).unwrap().to_string()), moves: vec![] });
+        }
+        _ => {
+            s.push(Cmd::Go { spec: format!("depth {}", rng.gen_range(1..=3)), wait: true });
+            s.push(Cmd::Stop);
+            s.push(Cmd::NewGame);
+        }
+    }
+    s.push(Cmd::ReadyDuringSearch { ms: 2500 });
+    if rng.gen_bool(0.4) {
+        if rng.gen_bool(0.5) {
+            s.push(Cmd::Position { fen: Some(roots.choose(rng).unwrap().to_string()), moves: vec![] });
+        }
+        s.push(Cmd::ReadyDuringSearch { ms: 1500 });
+    }
+    s.push(Cmd::Quit);
+    s
 }
 
 /// a timer of an earlier go must not end a later search: the later `go movetime` must use its whole time
